@@ -150,6 +150,28 @@ def nestguard(run, vm):
         else:
             run.violated('NESTGUARD', 'emit_opcode recursion', eo.loc(e), 'the decoder re-enters load() without marking that it is inside a context item: nesting is unbounded '
                          '(CNTXT_ITEM only %s, flag set first %s)' % (under, bool(okset)))
+    # the recursion decodes a SUB-range (the body of one context item): the operand bound fetch_opcode tests is the member _max.bytecode, so
+    # load() must set it from its own end parameter before the first opcode is fetched -- otherwise the operands of the last instruction
+    # of an item are taken from behind the item and decoded a second time as instructions (the size estimate no longer holds)
+    ld = fx.one('graphite2::vm::Machine::Code::decoder::load')
+    endp = [p_ for p_ in ld.f['params']][-1]
+    fetches = calls_in(ld, 'graphite2::vm::Machine::Code::decoder::fetch_opcode')
+    reads_member = any(x['k'] == 'MemberExpr' and (x.get('d') or '').endswith('limits::bytecode') for f_ in (fx.one('graphite2::vm::Machine::Code::decoder::fetch_opcode'),
+                       fx.one('graphite2::vm::Machine::Code::decoder::validate_opcode')) for _, x in f_.elements())
+    sets = [x for _, x in ld.elements() if x['k'] == 'BinaryOperator' and x['op'] == '=' and (ld.strip(x['c'][0]).get('d') or '').endswith('limits::bytecode')
+            and ld.strip_all_casts(ld.N(x['c'][1])).get('vid') == endp['vid']]
+    inst = 'load() bounds the operands by the end of the range it decodes'
+    if not fetches or not reads_member:
+        run.broken('NESTGUARD', inst, 'decoder::load no longer calls fetch_opcode, or the operand bound is no longer the member _max.bytecode', ld.where())
+    else:
+        doms_ = ld.dominators()
+        okl = [x for x in sets if all(ld.block_of[x['i']] in doms_[ld.block_of[f_['i']]] for f_ in fetches)]
+        if okl:
+            run.held('NESTGUARD', inst, ld.loc(okl[0]), '_max.bytecode = %s dominates every fetch_opcode call' % endp['n'])
+        else:
+            run.violated('NESTGUARD', inst, ld.where(), 'decoder::load(bc, %s) decodes the range up to `%s`, but fetch_opcode / validate_opcode test operands against the member _max.bytecode, which load() '
+                         'no longer sets from `%s` before the first fetch: inside a context item (emit_opcode re-enters load() for its body) the bound is still the end of the whole program, so the '
+                         'operands of an item\'s last instruction are read from behind the item and then decoded again as instructions -- more output than the size estimate allows' % (endp['n'], endp['n'], endp['n']))
     fo = fx.one('graphite2::vm::Machine::Code::decoder::fetch_opcode')
     fl = [e for e in calls_in(fo, 'graphite2::vm::Machine::Code::decoder::failure') if (fo.strip_all_casts(e['args'][0]).get('d') or '').endswith('nested_context_item')]
     ok = fl and any(f[:3] == ('this->_in_ctxt_item', '!=', '0') for f in dom.facts_at(fo, fl[0]['i']))
@@ -404,10 +426,78 @@ def narrowinit(run, fx):
         run.held('VALIDATOR', 'no computed size is narrowed into a 16-bit local', '', '%d initialised locals scanned' % n)
 
 
+def countarray(run, fx):
+    """count / array pairs of the loaders: where a function stores a member array  A = new T[C] / gralloc<T>(.. C ..)  sized by a member
+    count C that it also reads from the font, the count is only trustworthy together with the array.  From the store of an input value
+    to C, no SUCCESS return (`return true`) is reachable without passing the allocation of A or a store C = 0: a loader that leaves early
+    in between hands out a face with a non-zero count and no array (gr_face_lang_by_index(i < n_languages) dereferences null)."""
+    from .util import reaches_avoiding
+    n, bad = 0, []
+    for fn in fx.all_fns():
+        if not (fn.f.get('file') or '').startswith('src/') or fn.f.get('implicit'):
+            continue
+        els = [e for _, e in fn.elements()]
+        allocs = []
+        for e in els:
+            if e['k'] != 'BinaryOperator' or e.get('op') != '=':
+                continue
+            l = fn.strip(e['c'][0])
+            if l['k'] != 'MemberExpr' or fn.render(fn.N(l['c'][0])) != 'this' or '*' not in (l.get('t') or ''):
+                continue
+            r = fn.strip_all_casts(fn.N(e['c'][1]))
+            if r['k'] == 'CXXNewExpr' or (r['k'] == 'CallExpr' and (r.get('fq') or '').split('<')[0] in ('graphite2::gralloc', 'graphite2::grzeroalloc')):
+                cnt = {x.get('d') for x in fn.walk(e['c'][1]) if x['k'] == 'MemberExpr' and x.get('d') and fn.render(fn.N(x['c'][0])) == 'this'} if r['k'] != 'CXXNewExpr' else \
+                      {x.get('d') for x in fn.walk(r.get('asize')) if x['k'] == 'MemberExpr' and x.get('d')} if r.get('asize') is not None else set()
+                allocs.append((e, l.get('d'), cnt))
+        for ae, afield, cnts in allocs:
+            for cf in cnts:
+                cstores = [e for e in els if e['k'] == 'BinaryOperator' and e.get('op') == '=' and fn.strip(e['c'][0]).get('d') == cf and fn.render(fn.N(fn.strip(e['c'][0])['c'][0])) == 'this']
+                inputs = [e for e in cstores if fn.strip_all_casts(fn.N(e['c'][1])).get('v') is None]
+                zeros = [e for e in cstores if fn.strip_all_casts(fn.N(e['c'][1])).get('v') == 0]
+                succ = [e for e in els if e['k'] == 'ReturnStmt' and e.get('c') and fn.strip_all_casts(fn.N(e['c'][0])).get('v') in (1, True)]
+                if not inputs or not succ:
+                    continue
+                n += 1
+                cname = 'this->' + cf.split('::')[-1]
+                cut = dom.edges_with(fn, lambda f, cname=cname: f[0] == cname and f[1] == '==' and f[2] == '0')       # `if (count) { allocate }`: no array needed for none
+                stop = {fn.block_of[x['i']] for x in [ae] + zeros}
+                for ie in inputs:
+                    b0 = fn.block_of[ie['i']]
+                    order = [x['i'] for x in fn.blocks[b0]['el']]
+                    if any(fn.block_of[x['i']] == b0 and order.index(x['i']) > order.index(ie['i']) for x in [ae] + zeros):
+                        continue                # allocated (or reset) straight after, in the same block
+                    seen, todo = set(), [(b0, True)]
+                    while todo:
+                        b_, first = todo.pop()
+                        if b_ is None or (b_ in seen and not first):
+                            continue
+                        if not first:
+                            seen.add(b_)
+                            if b_ in stop:
+                                continue
+                        hit = [r for r in succ if fn.block_of[r['i']] == b_]
+                        if hit and (not first or order.index(hit[0]['i']) > order.index(ie['i'])):
+                            bad.append((fn, cf, afield, ie, hit[0]))
+                            break
+                        for idx_, x_ in enumerate(fn.blocks[b_]['succ']):
+                            if (b_, idx_) not in cut:
+                                todo.append((x_, False))
+    inst = 'a count read from the font is not left behind without its array'
+    if n < 1:
+        run.broken('VALIDATOR', inst, 'no count / array pair with a success return was found')
+    elif bad:
+        fn, cf, af, ie, r = bad[0]
+        run.violated('VALIDATOR', inst, fn.loc(r), '%s stores the count %s from the font at %s and can return success at %s without having allocated %s or reset the count: the face reports %s entries '
+                     'and has no array -- the first indexed access dereferences null' % (fn.q.split('::')[-1], cf.split('::')[-1], fn.loc(ie), fn.loc(r), af.split('::')[-1], cf.split('::')[-1]))
+    else:
+        run.held('VALIDATOR', inst, '', '%d count / array pairs with a success return' % n)
+
+
 def run(run):
     vm = R.get_vm(run)
     fx = vm.fx
     narrowinit(run, fx)
+    countarray(run, fx)
     attridx(run, fx)
     checkafteruse(run, fx)
     extentfirst(run, fx)
